@@ -490,3 +490,43 @@ def t3(ctx):
                       '%s: %s - a freed type can leave a stale cache entry that a new type at the '
                       'same address inherits' % (inst(f), why), e.loc)
     ctx.require(n >= 3, 'only %d type caches found (3 on the pinned tree)' % n)
+
+
+@rule('T3b', floor=3, title='every address-keyed memo of a type recogniser is invalidated when the type dies')
+def t3b(ctx):
+    """Any static / thread_local variable of a caching recogniser that remembers a type by address
+    (a pointer, a handle, or a value derived from one) must be reset by the weak-reference callback
+    that evicts the map entry - otherwise a new class at the same address inherits the answer."""
+    prog = ctx.cxx()
+    n = 0
+    for f in live_funcs(prog):
+        if f.body is None or f.is_lambda:
+            continue
+        st = _static_locals(f)
+        if not st:
+            continue
+        caches = set(st)
+        mutexes = set(st.values())
+        lams = prog.lambdas_of(f)
+        evict = [l for l in lams if any(member_path(c.call_base()) in caches
+                                        for c in calls_in(l.body, {'erase'}))]
+        if not evict:
+            continue
+        n += 1
+        statics = [v for v in f.body.find('VarDecl')
+                   if (v.x or {}).get('storageClass') == 'static' or (v.x or {}).get('tls')]
+        touched_in_evict = set()
+        for l in evict:
+            for m in l.body.walk():
+                if m.kind == 'DeclRefExpr' and m.ref:
+                    touched_in_evict.add(m.ref.get('name'))
+        for v in statics:
+            if v.name in mutexes:
+                continue
+            ctx.check('%s/%s/evicted-with-type' % (short(f), v.name), v.name in touched_in_evict,
+                      '%s: static `%s` is maintained by the eviction callback' % (inst(f), v.name),
+                      '%s: static%s `%s` (%s) survives the death of the cached type: the eviction '
+                      'callback never touches it, so a class created later at the same address '
+                      'gets the remembered answer' % (inst(f), ' thread_local' if (v.x or {}).get('tls') else '',
+                                                      v.name, v.type), v.loc)
+    ctx.require(n >= 3, 'only %d caching recognisers found' % n)
